@@ -342,6 +342,44 @@ func genHardPB(t *rapid.T) Case {
 	return c
 }
 
+// genManySoft: 34..46 soft clauses with pairwise different weights (the bound on the cost that each improvement adds
+// is a weighted constraint over that many literals), a few hard clauses, and often a hard unit clause that contradicts
+// the heaviest soft clause (its relaxation literal is fixed at top level and leaves the bound constraints).
+func genManySoft(kind string) func(t *rapid.T) Case {
+	return func(t *rapid.T) Case {
+		n := gen.Uniform(t, 8, 12, "n")
+		c := Case{Kind: kind, NVars: n}
+		m := gen.Uniform(t, 34, 46, "soft")
+		weights := rapid.Permutation(seqInts(1, m)).Draw(t, "weights")
+		heaviest := 0
+		for i := 0; i < m; i++ {
+			mc := MC{Lits: gen.DistinctLits(t, n, gen.Uniform(t, 1, 3, "arity"), "l"), AtLeast: 1, Weight: weights[i]}
+			if weights[i] == m {
+				mc.Lits = mc.Lits[:1]
+				heaviest = mc.Lits[0]
+			}
+			c.Constrs = append(c.Constrs, mc)
+		}
+		for i, k := 0, rapid.IntRange(1, 5).Draw(t, "hard"); i < k; i++ {
+			c.Constrs = append(c.Constrs, MC{Lits: gen.DistinctLits(t, n, gen.Uniform(t, 2, 3, "harity"), "h"), AtLeast: 1})
+		}
+		if heaviest != 0 && !gen.Chance(t, 1, 3, "noContradiction") {
+			c.Constrs = append(c.Constrs, MC{Lits: []int{-heaviest}, AtLeast: 1})
+		}
+		c.Constrs = rapid.Permutation(c.Constrs).Draw(t, "order")
+		c.Top = m*(m+1)/2 + 1
+		return c
+	}
+}
+
+func seqInts(lo, hi int) []int {
+	var s []int
+	for i := lo; i <= hi; i++ {
+		s = append(s, i)
+	}
+	return s
+}
+
 // addGadgets appends soft unit clauses on which the weight-greedy first model is sub-optimal
 // (one heavy clause against several lighter opposite ones whose total weight is larger), so that
 // the optimum is > 0 and reached after several improvement rounds.
@@ -410,6 +448,10 @@ func init() {
 			Rule: "maxsat.New(...).Solve(): 1..10 constraints over <=6 named variables, hard/soft split, weights 1..9; clauses, cardinality constraints (Coeffs nil, degree -1..len+1) and PB constraints with positive coefficients (degree 0..sum+1); the constraint values (coefficient slices carved out of one array) are given to maxsat.New 3 times (map-ordered cost function) and must stay untouched; oracle = brute force; non-trivial = >=1 hard constraint and >=1 soft constraint violated at the optimum"},
 		vf.Sub[Case]{Name: "hard-pb-systems", Quick: 8000, Thorough: 100000, Gen: genHardPB, Check: checkAPI, Floor: 0.1,
 			Rule: "maxsat.New(...).Solve(): 3..8 mostly hard constraints over 3..7 named variables in a drawn order - clauses, cardinality constraints, and weighted constraints with one dominant coefficient and a degree that the other terms cannot reach (a literal is forced while parsing, the rest of the constraint stays) - plus 0..3 soft unit clauses; same oracle as api"},
+		vf.Sub[Case]{Name: "many-soft-api", Quick: 1000, Thorough: 4000, Gen: genManySoft("api"), Check: checkAPI, Floor: 0.5,
+			Rule: "maxsat.New(...).Solve(): 34..46 soft clauses of 1..3 literals with pairwise different weights over 8..12 variables (the bound added after each model is a weighted constraint over more than 32 literals), 1..5 hard clauses, in two cases out of three a hard unit clause contradicting the heaviest soft clause; same oracle as api"},
+		vf.Sub[Case]{Name: "many-soft-wcnf", Quick: 1000, Thorough: 4000, Gen: genManySoft("wcnf"), Check: checkWCNF, Floor: 0.5,
+			Rule: "the same instances as WCNF text; same oracle as wcnf"},
 		vf.Sub[Case]{Name: "wcnf", Quick: 8000, Thorough: 100000, Gen: genWCNF, Check: checkWCNF, Floor: 0.18, Journal: true,
 			Rule: "ParseWCNF of a generated text (declared variables >= highest used, with/without top weight, soft weights < top, empty clauses, duplicate literals), Optimal(nil) and Optimal(chan) each on a fresh solver; oracle = brute force over the declared variables; non-trivial as above"},
 	)
